@@ -154,6 +154,20 @@ PROPS = {
         "assumptions": ["monotone wall clock; the scheduler runs the 1 s ticker within a few hundred ms"],
         "timeout": 120,
     },
+    "C10": {
+        "props_module": "Redproxy.Props.C10",
+        "mode": "c10",
+        "rule": "in-process real listeners and connectors with UDP echo origins: reverse-UDP listener -> direct with 1-4 clients interleaved (payloads "
+                "0 B .. 60 kB, the first datagram of every session included); SOCKS5 UDP ASSOCIATE -> direct and -> http connector -> second proxy "
+                "instance (frames inline over the CONNECT stream) -> direct, replies must carry the replying address; two receive-error scenarios "
+                "(client port closed after its last datagram, destination port closed); each datagram must come back exactly once, in order, to its "
+                "own client with identical payload (length + hash); non-trivial = every case; distinct = case lines",
+        "nontrivial": lambda c, i: True,
+        "trusted_base": ["session model Redproxy/Model/Udp.lean tied to reverse.rs / udp.rs / direct.rs by correspondence; codec models of C03 / C11 for "
+                         "the SOCKS5-UDP header, RPFM frames and QUIC fragments"],
+        "assumptions": ["loopback UDP neither loses nor reorders at the harness's rates; ICMP port-unreachable is delivered on loopback",
+                        "QUIC hops (inline and datagram channel) are not exercised end to end (codec + fragmentation theorems only)"],
+    },
     "C08": {
         "props_module": "Redproxy.Props.C08",
         "mode": "c08",
